@@ -108,3 +108,29 @@ Theorem C09_nested_containers_escaped :
     /\ ttype p = s_text /\ tcontent p = text_of segs.
 Proof. exact parse_nested_escaped. Qed.
 Print Assumptions C09_nested_containers_escaped.
+
+(* ... and at the HTML level: render(prefix(cs) esc(t) LF) is escapeHtml(t) between the tags of exactly those containers
+   (nest_html: <blockquote> per quote, <ul><li> per item, <p> only when the paragraph is not directly in a tight item) *)
+From MD Require Import Lemmas.NestRender.
+Theorem C09_render_nested_containers_escaped :
+  forall cfg rf cf lt (segs : list seg), wf segs -> line_ok (src_of segs) ->
+    mem_z 13 (src_of segs) = false -> mem_z 0 (src_of segs) = false ->
+  forall RA RB RC RD, c_rules (p_block cfg) = RA ++ nm_blockquote :: RB ++ nm_list :: RC ++ nm_paragraph :: RD ->
+    Forall (fun n => n = nm_table \/ n = nm_code \/ n = nm_fence) RA ->
+    Forall (fun n => n = nm_table \/ n = nm_code \/ n = nm_fence \/ n = nm_hr) RB ->
+    Forall (fun n => str_eqb n nm_paragraph = false) RC ->
+    p_core cfg = [n_normalize; n_block; n_inline; n_text_join] ->
+  forall ipre ipost, ic_rules (p_inline cfg) = ipre ++ n_escape :: ipost ->
+    Forall (fun n => n = n_text \/ n = n_linkify \/ n = n_newline) ipre -> In n_text ipre ->
+    ic_linkify (p_inline cfg) = false -> 0 < ic_maxNesting (p_inline cfg) ->
+  forall cs, Forall okc cs -> weight cs < c_maxNesting (p_block cfg) ->
+  forall env,
+    render_md cfg rf cf lt (prefix cs ++ src_of segs ++ [10]) env
+    = Ok (nest_html cs false (escape_html (text_of segs)), env).
+Proof. exact render_nested_escaped. Qed.
+Print Assumptions C09_render_nested_containers_escaped.
+
+Example C09_nest_html_reads :
+  nest_html [CQ; CI 45 1] false [120] = [60; 98; 108; 111; 99; 107; 113; 117; 111; 116; 101; 62; 10; 60; 117; 108; 62; 10; 60; 108; 105; 62; 120; 60; 47; 108; 105; 62; 10; 60; 47; 117; 108; 62; 10; 60; 47; 98; 108; 111; 99; 107; 113; 117; 111; 116; 101; 62; 10]
+  /\ nest_html [CI 42 2; CQ] false [120] = [60; 117; 108; 62; 10; 60; 108; 105; 62; 10; 60; 98; 108; 111; 99; 107; 113; 117; 111; 116; 101; 62; 10; 60; 112; 62; 120; 60; 47; 112; 62; 10; 60; 47; 98; 108; 111; 99; 107; 113; 117; 111; 116; 101; 62; 10; 60; 47; 108; 105; 62; 10; 60; 47; 117; 108; 62; 10].
+Proof. exact nest_html_examples. Qed.
